@@ -25,7 +25,8 @@ from pyvc.interp import LoopClause
 from .common import ApiUnit, SendSeam, oname, get_cls, bare_client, varbind, exc_is, get_func, pdu_varbinds
 
 T_MULTIWALK = "puresnmp.api.raw:Client.multiwalk"
-WALK_FUNCS = ("puresnmp.api.raw:Client.multiwalk", "puresnmp.api.raw:Client.multigetnext",
+WALK_FUNCS = ("puresnmp.api.raw:Client.multiwalk", "puresnmp.api.raw:Client._walk_stalled",
+              "puresnmp.api.raw:Client.multigetnext",
               "puresnmp.api.raw:deduped_varbinds", "puresnmp.util:group_varbinds",
               "puresnmp.util:get_unfinished_walk_oids")
 BULK_FUNCS = ("puresnmp.api.raw:Client._bulkwalk_fetcher", "puresnmp.api.raw:Client.bulkget",
@@ -383,4 +384,188 @@ def units_c02(tier):
         shapes += [(1, 3), (2, 3), (3, 1), (3, 2)]
     for n, m in shapes:
         us.extend(walk_units("C02", n, m))
+    return us
+
+
+# =====================================================================================
+# C03: termination, bounded requests and no re-request under ANY agent
+# =====================================================================================
+
+class FaultyWalkUnit(WalkUnit):
+    """
+    multiwalk against an agent that answers with ARBITRARY bindings (any OIDs, any values, endOfMibView
+    anywhere, any count the fetcher accepts).  Ghost state:
+      C   OIDs the client has already continued from (requested)
+      W   one witness per loop iteration (the last OID of the first active root): pairwise distinct and
+          all revealed by the agent  =>  #requests <= 1 + #distinct revealed instances
+      Rv  OIDs revealed by the agent
+    Finite universe: a ghost rank, strictly monotone on all OIDs and bounded by N, gives the variant.
+    """
+
+    def __init__(self, n, bulk, errors, phase, active=()):
+        WalkUnit.__init__(self, n, tuple(range(n)), bulk, "C03", phase, active)
+        self.errors = errors
+        self.functions = self.functions + ("puresnmp.api.raw:Client._walk_stalled",)
+        self.name = self.name.replace("Client.multiwalk[", "Client.multiwalk[any-agent,errors=%s," % errors)
+
+    def setup(self, rt, interp):
+        ApiUnit.setup(self, rt, interp)
+        oidt = rt.oid
+        F = z3.Function
+        self.rank = F("ghost_rank", OID, Int)
+        self.N = z3.Int("ghost_universe_size")
+        x, y = z3.Const("x", OID), z3.Const("y", OID)
+        rt.theory.add_once("ghost:finite-universe-1", lambda: z3.ForAll([x, y], z3.Implies(oidt.lt(x, y), self.rank(x) < self.rank(y))))
+        rt.theory.add_once("ghost:finite-universe-2", lambda: z3.ForAll([x], z3.And(self.rank(x) >= 0, self.rank(x) < self.N)))
+        rt.theory.note("C03: finite OID universe (the quantifier's wording) as a ghost rank: strictly monotone on all "
+                       "OIDs, bounded by N; the agent is unconstrained")
+        empty = z3.K(OID, z3.BoolVal(False))
+        self.C, self.W, self.Rv = empty, empty, empty
+        self.requests = 0
+        self.responses = []
+        interp.on_yield = None
+        interp.loop_clauses[(T_MULTIWALK, 0)] = LoopClause(self.havoc, self.invariant, self.variant,
+                                                           mode="establish" if self.phase == "prologue" else "step")
+
+    def respond(self, interp, pdu, n):
+        ctx, rt = interp.ctx, self.rt
+        qs = [vb[0] for vb in pdu_varbinds(interp, pdu)]
+        k = len(qs)
+        base = oname("C03", self.target, "call:_send", "")
+        for q in qs:
+            ctx.check(base + "never-asks-again-for-an-oid-it-continued-from", lift_bool(z3.Not(z3.Select(self.C, q.e))))
+        for q in qs:
+            self.C = z3.Store(self.C, q.e, z3.BoolVal(True))
+        self.requests += 1
+        if pdu.cls.name == "GetNextRequest":
+            count = k
+        else:
+            m = pdu.fields["max_repeaters"]
+            total = k * m
+            cvar = ctx.fresh_int("agent_count")
+            ctx.assume(And(cvar >= 0, cvar <= total))
+            count = total
+            for c in range(0, total + 1):
+                if c == total or ctx.branch(cvar.eq(c)):
+                    count = c
+                    break
+        out = []
+        for j in range(count):
+            o = ctx.fresh_oid("answer_oid%d" % j)
+            v = self.xv.fresh(ctx, "answer_val%d" % j)
+            self.Rv = z3.Store(self.Rv, o.e, z3.BoolVal(True))
+            out.append(varbind(rt, interp, o, v))
+        return out
+
+    def known_now(self):
+        return []
+
+    def invariant(self, interp, frame, when):
+        oidt = self.rt.oid
+        entries, _arr = self._state(interp, frame)
+        x = z3.Const("x", OID)
+        lt, below = oidt.lt, oidt.below
+        roots = [r.e for r in self.sorted_roots]
+        eroots = [e[0].e for e in entries]
+        out = []
+        shape = [z3.Or(*[er == r for r in roots]) for er in eroots]
+        shape += [lt(eroots[i], eroots[i + 1]) for i in range(len(eroots) - 1)]
+        out.append(("unfinished-list-names-requested-roots-in-ascending-order", lift_bool(z3.And(*shape)) if shape else True))
+        for (er, last, lval, flag) in entries:
+            out.append(("active-root:last-oid-inside-its-root-and-revealed-by-the-agent",
+                        And(lift_bool(below(last.e, er.e)), lift_bool(z3.Select(self.Rv, last.e)))))
+            out.append(("active-root:every-oid-continued-from-lies-before-the-last-oid",
+                        lift_bool(z3.ForAll([x], z3.Implies(z3.And(z3.Select(self.C, x), below(x, er.e)), lt(x, last.e))))))
+        out.append(("continued-from-oids-lie-inside-the-roots",
+                    lift_bool(z3.ForAll([x], z3.Implies(z3.Select(self.C, x), z3.Or(*[below(x, r) for r in roots]))))))
+        out.append(("witnesses-were-continued-from-and-revealed",
+                    lift_bool(z3.ForAll([x], z3.Implies(z3.Select(self.W, x), z3.And(z3.Select(self.C, x), z3.Select(self.Rv, x)))))))
+        return out
+
+    def havoc(self, interp, frame):
+        ctx, rt = interp.ctx, self.rt
+        walkrow = get_cls(rt, interp, "puresnmp.util:WalkRow")
+        arr = z3.ArraySort(OID, Bool)
+        self.C, self.W, self.Rv = ctx.fresh(arr, "continued_from"), ctx.fresh(arr, "witnesses"), ctx.fresh(arr, "revealed")
+        frame.locals["yielded"] = ASet(ctx.fresh(arr, "yielded"))
+        un = []
+        for i, r in enumerate(self.sorted_roots):
+            if i in self.active:
+                last = ctx.fresh_oid("last_r%d" % i)
+                lval = self.xv.fresh(ctx, "last_val_r%d" % i)
+                un.append((r, Obj(walkrow, {"value": varbind(rt, interp, last, lval), "unfinished": True})))
+        frame.locals["unfinished_oids"] = un
+        frame.locals["fetcher"] = self.real_fetcher
+        for name in ("varbinds", "grouped_oids", "next_fetches", "continued_from", "stalled"):
+            frame.locals.pop(name, None)
+        self._witness_pending = un[0][1].fields["value"][0] if un else None
+
+    def variant(self, interp, frame):
+        entries, _ = self._state(interp, frame)
+        # first evaluation (loop head): book the iteration's witness
+        if getattr(self, "_witness_pending", None) is not None:
+            w = self._witness_pending
+            self._witness_pending = None
+            interp.ctx.check(oname("C03", self.target, "loop[0]", "each-request-is-paid-for-by-a-new-revealed-instance"),
+                             And(lift_bool(z3.Not(z3.Select(self.W, w.e))), lift_bool(z3.Select(self.Rv, w.e))))
+            self.W = z3.Store(self.W, w.e, z3.BoolVal(True))
+        total = z3.IntVal(0)
+        for (er, last, lval, flag) in entries:
+            total = total + (self.N - self.rank(last.e))
+        return SInt(total)
+
+    def run(self, interp):
+        ctx, rt = interp.ctx, self.rt
+        oidt = rt.oid
+        self.sorted_roots = [ctx.fresh_oid("root%d" % i) for i in range(self.n)]
+        for i in range(self.n - 1):
+            ctx.assume(oidt.lt_sym(interp, self.sorted_roots[i], self.sorted_roots[i + 1]))
+        for i in range(self.n):
+            for j in range(self.n):
+                if i != j:
+                    ctx.assume(Not(oidt.below_sym(interp, self.sorted_roots[i], self.sorted_roots[j])))
+        self.roots = self.sorted_roots
+        ctx.mark_base()
+        seam = SendSeam(self, self.respond)
+        seam.install(rt, interp)
+        client = bare_client(rt, interp)
+        kwargs = {"errors": self.errors}
+        if self.bulk:
+            mk = get_func(rt, interp, "puresnmp.api.raw:Client._bulkwalk_fetcher")
+            self.real_fetcher = interp.call(BoundMethod(mk, client), [self.bulk], {})
+            kwargs["fetcher"] = self.real_fetcher
+        else:
+            self.real_fetcher = BoundMethod(get_func(rt, interp, "puresnmp.api.raw:Client.multigetnext"), client)
+        if self.phase == "step":
+            from pyvc.objects import Builtin
+            kwargs["fetcher"] = Builtin("stub-first-answer", lambda i, a, k: [])
+        exc = None
+        try:
+            self.call_target(interp, client, list(self.sorted_roots), **kwargs)
+        except PyExc as pe:
+            exc = pe.obj
+        base = oname("C03", self.target, "exit", "")
+        if exc is None:
+            ctx.check(base + "ends-normally", True)
+            return "returns"
+        faulty = get_cls(rt, interp, "puresnmp.exc:FaultySNMPImplementation")
+        # (any exception ends the operation; which ones may leave is only constrained for lenient mode.
+        #  Remark, not claimed: an agent answering two roots with the same OID but different values makes
+        #  sorted() compare x690 values and raise TypeError.)
+        ctx.check(base + "ends-by-an-exception", True)
+        if self.errors == "warn":
+            ctx.check(base + "lenient-mode-never-raises-FaultySNMPImplementation", not exc_is(exc, faulty))
+        return "raises:%s" % exc.cls.name
+
+
+def units_c03(tier):
+    us = []
+    shapes = [(1, None), (2, None), (1, 1), (1, 2), (2, 1)]
+    if tier == "thorough":
+        shapes += [(2, 2), (3, None), (1, 3), (3, 1)]
+    for n, m in shapes:
+        for errors in ("strict", "warn"):
+            us.append(FaultyWalkUnit(n, m, errors, "prologue"))
+            for act in subsets(n):
+                us.append(FaultyWalkUnit(n, m, errors, "step", act))
     return us
